@@ -48,7 +48,12 @@ fn gen_alg(rng: &mut Prng) -> AlgCfg {
 
 fn build_alg(c: &AlgCfg) -> Algorithm {
     if c.vegas {
-        Algorithm::Vegas(Vegas::builder().initial_limit(c.init).min_limit(c.min).max_limit(c.max).alpha(c.alpha).beta(c.beta).build())
+        // builder and direct constructor alike (init may lie outside [min, max]: both clamp)
+        if c.init.wrapping_add(c.alpha).wrapping_add(c.beta) % 2 == 0 {
+            Algorithm::Vegas(Vegas::new(c.init, c.min, c.max, c.alpha, c.beta))
+        } else {
+            Algorithm::Vegas(Vegas::builder().initial_limit(c.init).min_limit(c.min).max_limit(c.max).alpha(c.alpha).beta(c.beta).build())
+        }
     } else {
         Algorithm::Aimd(
             Aimd::builder()
@@ -106,7 +111,8 @@ pub fn gen(rng: &mut Prng) -> Cfg {
             out: match rng.below(10) {
                 0..=5 => Out::Ok,
                 6..=7 => Out::Err(1),
-                _ => Out::Panic,
+                8 => Out::Panic,
+                _ => Out::PanicInCall,
             },
             open_poll: open,
             drop_poll,
